@@ -7,6 +7,12 @@ STAGES = [
     Stage("valuesem-asan", "p15_valuesem", "asan", {"quick": 8000, "thorough": 200000}),
     # the optimised assertion build sees the same histories' siblings (other case indices) at -O2
     Stage("valuesem-plain", "p15_valuesem", "plain", {"quick": 8000, "thorough": 200000}, offset=10000000),
+    # large Vector copies under every OpenMP team situation (top level, inside a parallel region, thread limit below
+    # omp_get_max_threads(), dynamic adjustment) -- added after the seeded change C15-b slipped through
+    Stage("parallel-copy", "p15b_parallel_copy", "plain", {"quick": 300, "thorough": 6000}, offset=20000000),
+    Stage("parallel-copy-thread-limit", "p15b_parallel_copy", "plain", {"quick": 300, "thorough": 6000}, offset=20000000,
+          env={"OMP_THREAD_LIMIT": "2"}),
+    Stage("parallel-copy-asan", "p15b_parallel_copy", "asan", {"quick": 100, "thorough": 1500}, offset=20000000),
 ]
 THRESHOLDS = {
     # booleans (0 = as required, 1 = not): exact, bitwise comparisons of everything readable through the public interface
@@ -21,6 +27,9 @@ THRESHOLDS = {
     # LDL^T / LU without pivoting are backward stable: observed <= 6e-16 over > 1e6 solves.  A solve that uses the wrong
     # factorisation state is off by 1e-2..1e+26; 1e-12 is > 1000x above the former and 1e10x below the latter.
     "solve_vs_dense": 1e-12,
+    # stage parallel-copy: large Vector copies at top level / inside a parallel region / under a thread limit
+    "copy_equals_source": 0.5,
+    "copy_is_independent": 0.5,
 }
 MIN_NONTRIVIAL = {"quick": 2000, "thorough": 30000}
 RULE = ("each case draws one class (Vector, SparseMatrixCOO, SparseMatrixCSR, SparseLUSolver, SymmetricTridiagonalSolver "
